@@ -1,13 +1,11 @@
-# shared file-sink harness: see harness/FS/fs.cpp (VF_PROP selects the property whose assertions are active).
-# One job per combination of the option bits (RotationOnStartup, RotationDaily, Compression): together they cover all.
-D = {'QM_STR_CAP': 48, 'QM_LIST_CAP': 7, 'QM_HASH_CAP': 2, 'QM_FS_SLOTS': 6, 'QM_FS_FCAP': 32, 'QM_RX_MAXSEG': 16, 'VF_PROP': 7, 'VF_LMAX': 8, 'VF_SMAX': 3}
-UP = {'h_fs_hist': 8, 'check_directory': 10, 'decode': 10, 'findNextIndexForDate': 8, 'findRotatedFiles': 8, 'removeOldFiles': 8, 'calculateCRC32': 300, 'ref_crc32': 40, '__insertion_sort': 8, '__unguarded': 8, '__introsort': 8, '__final_insertion': 8, 'sort': 8, 'env_gunzip': 40, 'parse_rotated_name': 50}
-JOBS = []
-for s_, d_, c_ in [(0, 0, 0), (0, 1, 0), (1, 0, 0), (1, 1, 0)]:
-    quick = (s_, d_, c_) in [(0, 0, 0), (1, 1, 0)]
-    JOBS.append(dict(name='hist2_s%dd%dc%d' % (s_, d_, c_), src='../FS/fs.cpp', fn='h_fs_hist', defines=dict(D, VF_OPS=2, VF_STARTUP=s_, VF_DAILY=d_, VF_COMPRESS=c_), unwind=50, unwind_patterns=UP,
-                     timeout=2400, mem=14, real_wrap_clock=True, tiers=['quick', 'thorough'] if quick else ['thorough']))
-JOBS.append(dict(name='hist3', src='../FS/fs.cpp', fn='h_fs_hist', defines=dict(D, VF_OPS=3, VF_STARTUP=0, VF_DAILY=1, VF_COMPRESS=0), unwind=50, unwind_patterns=UP, timeout=7200, mem=40, tiers=['thorough'], real_wrap_clock=True))
-BOUNDS = {'quick': 'every history of 2 writes (record 1..3 characters, ASCII or 2-byte UTF-8) with clock ticks 0..2 (ties included), day changes 0..2, optional sink restart before each write; size limit 0..8, file-count limit -1..3; option combinations [(0, 0, 0), (1, 1, 0)] (startup, daily, compression); directory decoded after every write', 'thorough': 'all option combinations [(0, 0, 0), (0, 1, 0), (1, 0, 0), (1, 1, 0)], and histories of 3 writes with daily rotation'}
-OUTSIDE = 'longer histories; directories with pre-existing or foreign files; file names other than a.l; real kernel/file-system semantics (POSIX rename atomicity assumed); the deflate payload itself (zlib, contract stub)'
-ASSUMPTIONS = ['file-system model qtmodel/qm_fs.h (rename refuses existing targets, open(Append) creates, size() flushes, mtime = time of last durable write)', 'qCompress = 4-byte length + zlib header + deflate data + Adler-32 (RFC 1950 framing); deflate data is a contract stub', 'QString::toLocal8Bit == toUtf8 (UTF-8 locale)', 'regex model validated by vf conform']
+import sys, os; sys.path.insert(0, os.path.join(os.path.dirname(os.path.abspath(__file__)), '..', 'FS'))
+import importlib, fs_jobs; importlib.reload(fs_jobs)
+from fs_jobs import step, bounds, OUTSIDE, ASSUMPTIONS
+P = 7
+JOBS = [
+    step(P, 'size_m0', 0, 0, 0, 0, 0, 0),
+    step(P, 'size_m1', 1, 0, 0, 0, 0, 0),
+    step(P, 'size_daily_startup', 2, 1, 1, 1, 1, 0, tiers=('thorough',)),
+    step(P, 'size_2writes', 0, 0, 0, 0, 0, 0, ops=2, tiers=('thorough',), timeout=5400, mem=40),
+]
+BOUNDS = {'quick': bounds('size rotation alone on menus {.1,.2} and {.9,.10} (one write)'), 'thorough': bounds('plus daily+startup rotation with a day change, and two writes')}
